@@ -137,7 +137,7 @@ func (*hconc) Run(rc *core.RunCtx) *core.RunResult {
 			j.optForce = t.Intn(8) == 0 && j.s.Format != ""
 		}
 		j.planKind, j.planAt = simos.PlanNone, 0
-		if t.Intn(6) == 0 {
+		if t.Intn(10) == 0 {
 			// a job that fails mid-way next to succeeding ones
 			j.planKind = []int{simos.PlanTransient, simos.PlanPersistent, simos.PlanEOF}[t.Intn(3)]
 			j.planAt = t.Intn(40)
